@@ -322,6 +322,9 @@ func runCrashEnum(c *Ctx, prop string) {
 				sp0.Files = append(sp0.Files, wsFile{Name: fmt.Sprintf("a.%03d.dat", k), Size: 2*sp0.Conf.PayloadSize + int64(50+srng.Intn(400))})
 			}
 			sp0.Mutations = []mutation{{AtAction: 6 + srng.Intn(25), File: srng.Intn(3), Kind: []string{"append", "rewrite", "replace"}[srng.Intn(3)]}}
+			// ... and once more when everything has been confirmed and the sender is idle:
+			// the scan that picks that version up is the only thing that touches the cache
+			sp0.QuietMutations = []mutation{{File: srng.Intn(3), Kind: []string{"append", "rewrite", "replace"}[srng.Intn(3)]}}
 			sp0.Conf.ScanDelay = time.Duration(3+srng.Intn(8)) * time.Second
 			sp0.Conf.Tags[0].Delete = false
 			// two versions of a name are in play here: what the release / ledger oracles
@@ -434,6 +437,12 @@ func runCrashEnum(c *Ctx, prop string) {
 				// the same PRNG stream as the reference run: up to the crash the history
 				// is the one whose steps were counted, so crash point k is step k
 				rs := seed
+				if prop == "C07" && k%2 == 1 {
+					// (sender side: every other run takes a stream of its own - other sizes
+					// and latencies - so that windows which the one counted history does not
+					// contain are reached as well)
+					rs = seed + int64(k)*31
+				}
 				c.Guard(idx, &sp, func() {
 					bubble(c.T, func() { e2eOne(c, prop, idx, rs, &sp, dir) })
 				})
